@@ -189,6 +189,7 @@ inductive ErrKind
   | io            -- reading the file failed (missing, a directory, undecodable bytes)
   | rewriter      -- the rewriter raised (syntax error, undecodable bytes, …)
   | eof           -- input() hit end of file
+  | unsafeTarget  -- `symlink_follow`: `Filename(os.path.realpath(link))` raised UnsafeFilenameError
   deriving DecidableEq, Repr
 
 inductive Event
@@ -217,14 +218,20 @@ structure Res where
   ev : List Event
   oc : Outcome
 
-/-- The two things the action loop is parametric in: the rewriter (`modify_function`; `none` = it
-    raises) and which contents `read_file` can decode. -/
+/-- The things the action loop is parametric in: the rewriter (`modify_function`; `none` = it
+    raises), which contents `read_file` can decode, where `atomic_write_file` succeeds, and which real paths
+    `Filename` accepts. -/
 structure Env where
   rw : Content → Option Content
   readable : Content → Bool
   /-- `atomic_write_file(path, …)` succeeds; otherwise it raises `OSError` before anything exists under the
       target's name (unwritable directory, read-only file system, `<name>.tmp.<pid>` longer than NAME_MAX, …) -/
   writable : Path → Bool
+  /-- `Filename(os.path.realpath(<name of the path>))` does not raise: the real path (all symlinks resolved; a
+      link and the file it finally resolves to have the same one) lies inside `Filename`'s whitelist
+      `[a-zA-Z0-9_=+{}/.,~@-]`.  Consulted only by `symlink_follow` (`m.filename = m.filename.realpath`): the
+      other policies never build the real path. -/
+  realSafe : Path → Bool := fun _ => true
 
 /-- `m.input_content` (cached). -/
 def getInput (env : Env) (fs : FS) (st : MState) : Except ErrKind (MState × Content × List Event) :=
@@ -295,7 +302,14 @@ def step (env : Env) (a : Action) (fs : FS) (st : MState) (ans : List Str) : Res
       else ⟨fs, st, rest, [.ask named st.cur, .aborted], .aborted⟩
   | .symlink .error => if isLink fs st.cur then ⟨fs, st, ans, [], .sysexit⟩ else ⟨fs, st, ans, [], .done⟩
   | .symlink .follow =>
-    if isLink fs st.cur then ⟨fs, { st with cur := (resolve fs st.cur).getD st.cur }, ans, [], .done⟩
+    if isLink fs st.cur then
+      -- `m.filename = m.filename.realpath`: `Filename.realpath` builds `Filename(os.path.realpath(...))`, which
+      -- raises UnsafeFilenameError (a ValueError, collected by process_actions like any exception) when the
+      -- resolved path has a character outside the whitelist; `m.filename` is then still the link, nothing was
+      -- read, the rewriter has not run
+      if env.realSafe ((resolve fs st.cur).getD st.cur) then
+        ⟨fs, { st with cur := (resolve fs st.cur).getD st.cur }, ans, [], .done⟩
+      else ⟨fs, st, ans, [], .error .unsafeTarget⟩
     else ⟨fs, st, ans, [], .done⟩
   | .symlink .skip => if isLink fs st.cur then ⟨fs, st, ans, [], .aborted⟩ else ⟨fs, st, ans, [], .done⟩
   | .symlink .replace => ⟨fs, st, ans, [], .done⟩
